@@ -10,13 +10,7 @@ import (
 	"github.com/avos-io/goat/gen/testproto"
 )
 
-func zzHdr() *goatorepo.RequestHeader {
-	return &goatorepo.RequestHeader{Method: "/s/m", Source: "c", Destination: "s"}
-}
 
-func zzRespHdr() *goatorepo.RequestHeader {
-	return &goatorepo.RequestHeader{Method: "/s/m", Source: "s", Destination: "c"}
-}
 
 // H_C11_client_extra: a peer that sends more than expected. A stream (mode 0) or a unary
 // call (mode 1) has ended on the client; the peer sends r further envelopes for its id and
